@@ -520,9 +520,9 @@ def run(ctx: Context) -> None:
 
     def role_of(e: ast.AST) -> str:
         if isinstance(e, ast.Name):
-            vals = _reaching_values(entry, e.id)
-            if len(vals) == 1:
-                return role_of(vals[0])
+            roles_ = {role_of(v) for v in _reaching_values(entry, e.id)}
+            if len(roles_) == 1:
+                return roles_.pop()  # every definition reaching the call plays the same role
             return "?"
         if isinstance(e, ast.Call) and call_name(e) == "time" and not e.args:
             return "t"
